@@ -97,6 +97,8 @@ def class_component_step(ft: int, fr: int, fo: int, ti: int, inst_has: bool, oi:
     pre: 0 <= ft < 4 and 0 <= fr < 4 and 0 <= fo < 4
     pre: 0 <= ti < 2
     pre: 0 <= oi < hx.P.get('owners', 1)
+    pre: hx.P.get('ti') is None or ti == hx.P['ti']
+    pre: hx.P.get('ih') is None or inst_has == hx.P['ih']
     post: _
     """
     hx.begin()
@@ -389,7 +391,7 @@ def obligations(tier):
            _MetaAgent.get_class_component, _MetaAgent.has_class_component, _MetaAgent.__len__, Agent.__init__)
     return [
         X("class_component_step", class_component_step, parts=[{"op": o, "ci": c} for o in ("attach", "detach") for c in range(6)] +
-          [{"op": "attach", "ci": c, "owners": 9} for c in ((2,) if tier == "quick" else (0, 2, 4))],
+          [{"op": "attach", "ci": c, "owners": 9, "ti": t, "ih": h} for c in ((2,) if tier == "quick" else (0, 2, 4)) for t in (0, 1) for h in (False, True)],
           labels=("applied", "duplicate_rejected", "absent_rejected"),
           labels_for=lambda p: ("applied", "duplicate_rejected") if p["op"] == "attach" else ("applied", "absent_rejected"),
           timeout=900, encoded=enc),
